@@ -197,7 +197,7 @@ class ScanProperty:
                 known_hit.add(v['idx'])
                 continue
             v['property'] = self.ID
-            v['what'] = 'implementation differs from the specification'
+            v['what'] = v.pop('what_override', None) or 'implementation differs from the specification'
             out.violations.append(v)
         for b in breaks:
             if b['idx'] < nk or any(v['idx'] == b['idx'] for v in viols):
@@ -212,7 +212,7 @@ class ScanProperty:
                 out.notes.append('known finding %s no longer reproduces' % k['id'])
         # unexpected build failures of generated supported configurations
         for i, (c, r) in enumerate(zip(cases, results)):
-            if r.get('build') != 'ok' and not c.get('may_fail'):
+            if r.get('build') != 'ok' and not c.get('may_fail') and not r.get('harness_timeout') and not r.get('harness_skipped'):
                 out.violations.append({'property': self.ID, 'what': 'supported configuration does not build: %s %s' % (r.get('build'), r.get('error', '')),
                                        'case': c, 'idx': i})
         cap_n = cap_ok = 0
